@@ -181,12 +181,15 @@ def run(ctx):
     ctx.ob("C07.b", con.qual, fresh and set(types) == {V2, V3}, "_connect stores the protocol object newly constructed by the connection factory",
            func=con.qual, file=file, construct="self._protocol = protocol", detail={"classes": types},
            fail="_connect can store a protocol object that was not freshly constructed for this connection (old key / counter / buffer survive a reconnect)")
-    pc_term_ = None
-    for n in ast.walk(con.node):
-        if isinstance(n, ast.Assign) and any(isinstance(t, ast.Name) and t.id == "protocol_class" for t in n.targets):
-            pc_term_ = cs.ta.terms_at.get(n.value)
-    sel_ok = pc_term_ is not None and pc_term_[0] == "ite" and pc_term_[2] == ("global", V3) and pc_term_[3] == ("global", V2) and \
-        strip(pc_term_[1]) == ("cmp", "==", ("attr", ("param", con.params[0]), "_protocol_version"), ("const", 3))
+    # the class the factory constructs, as a gated term: V3 exactly when the configured version is 3 (whatever the local is called, wherever
+    # the connection is opened)
+    from ..facts import simplify
+    sels = {x for t_ in finals for x in subterms(t_) if x[0] == "ite" and class_valued(x)}
+    sels = {x for x in sels if not any(x is not y and any(z == x for z in subterms(y)) for y in sels)}          # outermost only
+    pc_term_ = next(iter(sels)) if len(sels) == 1 else None
+    ver = ("attr", ("param", con.params[0]), "_protocol_version")
+    sel_ok = pc_term_ is not None and simplify(pc_term_, {("cmp", "==", ver, ("const", 3))}) == ("global", V3) and \
+        simplify(pc_term_, {("cmp", "!=", ver, ("const", 3))}) == ("global", V2)
     ctx.ob("C07.b", con.qual, sel_ok, "protocol class = V3 exactly when _protocol_version == 3", func=con.qual, file=file, construct="protocol_class selection",
            detail={"term": show(pc_term_) if pc_term_ else None}, fail="the protocol class selection changed")
     from .c06 import flush_before_write
@@ -275,6 +278,9 @@ def run(ctx):
     expired_false = true_ok = False
     trues = [(pc, t) for pc, t, node, _st in als.returns if node is not None and not (is_const(t) and not t[1])]
     true_ok = bool(trues) and all(pc_implies(tuple(pc) + (() if is_const(t) else ((t, True),)), fresh_or_unset) for pc, t in trues)
+    if not true_ok and trues:
+        tfs = true_facts(als)          # per way of returning true (results assembled in a flag)
+        true_ok = bool(tfs) and all(any(fresh_or_unset(a) for a in fs) for fs in tfs)
     expired_false = true_ok
     ctx.count("lifetimes")
     ctx.ob("C07.d", al.qual, expired_false and true_ok, "_alive is false once now > _connection_expiration (elapsed lifetime => reconnect)", func=al.qual, file=file,
